@@ -43,8 +43,8 @@ impl Visitor for Rewriter {
                     .replace("/", &main_separator)
                     .replace("\\", &main_separator),
             );
-            // std/ paths are special and do not get made into absolute paths.
-            if path.starts_with(format!("std{}", main_separator)) {
+            // The embedded std/ libraries are special and do not get made into absolute paths.
+            if crate::build::stdlib::is_embedded(&def.path.fragment) {
                 return;
             }
             if path.is_relative() {
